@@ -162,6 +162,9 @@ structure HeaderView where
   firmwareRevision : VersionView
   oemLength : Nat
   oem : List Nat
+  /-- the parse result HAS an OEM data field.  The OEM data is a header field for every declared
+  length 0..65535 (for length 0 it is the empty byte string): a faithful parser reports it always. -/
+  oemPresent : Bool := true
   checksum : Nat
   length : Nat
   deriving Repr, DecidableEq, Inhabited
@@ -195,7 +198,7 @@ def Header.view (h : Header) : HeaderView :=
     selftestTimeout := h.selftestTimeout, rollbackTimeout := h.rollbackTimeout,
     inaccessibilityTimeout := h.inaccessibilityTimeout,
     earliest := h.earliest.view2, firmwareRevision := h.firmwareRevision.view6,
-    oemLength := h.oem.length, oem := h.oem, checksum := zeroSum (headerBody h),
+    oemLength := h.oem.length, oem := h.oem, oemPresent := true, checksum := zeroSum (headerBody h),
     length := 34 + h.oem.length + 1 }
 
 def Record.view : Record → ActionView
